@@ -13,8 +13,8 @@ ASSUMPTIONS = ["reference secp256k1 / Base58Check in vf/ref", "SEC1 hybrid/compa
 NSHARDS = {"quick": 32, "thorough": 64}
 BUDGET_S = {"quick": 200, "thorough": 1800}
 MIN_HITS = {
-    "quick": {"key": 200, "edge_key": 50, "addr_hash": 300, "leading_zero_hash": 150, "addr_corrupt": 1500, "addr_len": 60, "wif_corrupt": 1000, "pub_candidate": 1500, "pub_offcurve": 300, "unlock": 200, "prefix_nonzero": 200},
-    "thorough": {"key": 5000, "addr_hash": 8000, "leading_zero_hash": 4000, "addr_corrupt": 40000, "wif_corrupt": 30000, "pub_candidate": 40000, "pub_offcurve": 8000, "unlock": 5000},
+    'quick': {"key": 200, "edge_key": 50, "addr_hash": 300, "leading_zero_hash": 150, "addr_corrupt": 1500, "addr_len": 60, "wif_corrupt": 1000, "pub_candidate": 1500, "pub_offcurve": 300, "unlock": 200, "prefix_nonzero": 200},
+    'thorough': {"key": 23040, "addr_hash": 38860, "leading_zero_hash": 36864, "addr_corrupt": 276480, "wif_corrupt": 460800, "pub_candidate": 115200, "pub_offcurve": 61788, "unlock": 23040},
 }
 EDGE = [1, 2, 3, (ec.N - 1) // 2, (ec.N + 1) // 2, ec.N - 2, ec.N - 1]
 
@@ -43,7 +43,7 @@ def cases(ctx):
     r = ctx.rnd
     t = ctx.tier == "thorough"
     S, N = ctx.shard, ctx.nshards
-    for i in range(600 if t else 8):
+    for i in range(2500 if t else 8):
         x = r.choice(EDGE) if r.random() < 0.3 else r.randrange(1, ec.N)
         comp = r.random() < 0.5
         prefix = r.choice([0, 0x6F, r.randrange(256)])
@@ -73,7 +73,7 @@ def cases(ctx):
             h = b"\x00" * zl + (bytes([r.randrange(1, 256)]) + gen.rbytes(r, 19 - zl) if zl < 20 else b"")
             for prefix in (0, 0, 0x6F, r.randrange(256)):
                 yield {"k": "addr_hash", "hash": h.hex(), "prefix": prefix}
-    for i in range(400 if t else 5):
+    for i in range(1500 if t else 5):
         h = gen.rbytes(r, 20)
         if r.random() < 0.3:
             h = b"\x00" * r.randrange(1, 5) + h[: 20 - 4][:16] + gen.rbytes(r, 4)
@@ -91,7 +91,7 @@ def cases(ctx):
         yield {"k": "addr_corrupt", "s": s + r.choice(base58.ALPHABET)}
         for body in (h[:19], h + b"\x00", h[:1], b"", h + h):
             yield {"k": "addr_len", "s": base58.check_encode(bytes([prefix]) + body)}
-    for i in range(3000 if t else 55):
+    for i in range(12000 if t else 55):
         kind = r.choice(["on", "on_u", "off", "off_u", "xgep", "ident", "tag", "len", "rand33", "rand65", "y_wrong"])
         x = r.randrange(1, ec.N)
         Q = ec.mul_g(x)
